@@ -145,6 +145,19 @@ def run(rep, props, replay=None):
             bad.append("normalised basis without intercept is not the basis without intercept, normalised")
         if bad:
             rep.violation(f"Basis({f1}): " + "; ".join(bad), {"family": f1, "n_functions": n1})
+        # same family, same size, two DIFFERENT grids with the same number of points (nothing but the grids tells them apart)
+        g_same = np.unique(np.round(np.sort(rng.uniform(-2, 3, size=4 * len(g1))) * 64) / 64)[: len(g1)]
+        if len(g_same) == len(g1):
+            with warnings.catch_warnings():
+                warnings.simplefilter("ignore")
+                b_other = np.asarray(Basis(name=f1, n_functions=n1, argvals=DenseArgvals({"input_dim_0": g_same})).values, float)
+                bb_s = np.asarray(Basis(name=(f1, f1), n_functions=(n1, n1),
+                                        argvals=DenseArgvals({"input_dim_0": g1, "input_dim_1": g_same})).values, float)
+            flat_s = bb_s.reshape(bb_s.shape[0], -1)
+            sc_s = max(1.0, float(np.max(np.abs(flat_s))))
+            t = runq.add(f"mclose {C.qlit(1e-12 * sc_s)} (tensor_basis opsQ {C.qmat(b_full)} {C.qmat(b_other)}) {C.qmat(flat_s)}")
+            todo.append((t, "2-D basis is the row-major tensor product of the marginal bases", ("tensor-same-shape", f1),
+                         {"family": [f1, f1], "n_functions": [n1, n1], "grids": "different, equal length"}, True))
         for f2 in fams:
             n2 = 4 if f2 == "bsplines" else 2
             with warnings.catch_warnings():
